@@ -6,6 +6,7 @@
 (*   {"ev":"reset","scn":id,"pre":..,"n":..,"mode":..,"point":..,...}      *)
 (*   {"ev":"start","pre":pre}                                              *)
 (*   {"ev":"outcome","kind":"reply"|"crash","st":status}                   *)
+(*   {"ev":"rivalack"}      an overlapping PUT of the same block got 2xx   *)
 (*   {"ev":"restart"}                                                      *)
 (*   {"ev":"get","class":"complete"|"error"|"partial"}                     *)
 (*   {"ev":"index","entries":["complete"|"pre"|"other"..]}                 *)
@@ -20,13 +21,14 @@ TraceInit == l = 1 /\ PInit
 TraceReset   == IsEvent("reset") /\ phase' = "idle" /\ pre' = "none" /\ acked' = FALSE
 TraceStart   == IsEvent("start") /\ PutStart(Ev.pre)
 TraceOutcome == IsEvent("outcome") /\ Outcome(Ev.kind, Ev.st)
+TraceRivalAck == IsEvent("rivalack") /\ RivalAck
 TraceRestart == IsEvent("restart") /\ Restart
 TraceGet     == IsEvent("get") /\ Get(Ev.class)
 TraceIndex   == IsEvent("index") /\ Index(Ev.entries)
 TraceDirScan == IsEvent("dirscan") /\ DirScan(Ev.blk, Ev.tmpblk)
 TraceIndexDuring == IsEvent("indexduring") /\ IndexDuring(Ev.entries)
 
-TraceNext == TraceReset \/ TraceStart \/ TraceOutcome \/ TraceRestart \/ TraceGet \/ TraceIndex \/ TraceDirScan \/ TraceIndexDuring
+TraceNext == TraceReset \/ TraceStart \/ TraceOutcome \/ TraceRivalAck \/ TraceRestart \/ TraceGet \/ TraceIndex \/ TraceDirScan \/ TraceIndexDuring
 
 TraceSpec == TraceInit /\ [][TraceNext]_<<pvars, l>>
 =============================================================================
